@@ -55,7 +55,9 @@ static const char *WN[] = { "sockclose", "sockclose2", "ctxclose", "pipeclose",
 
 typedef struct carg {
 	int proto, what;
+	int tran; // 0 inproc, 1 ipc, 2 tcp, 3 ws: the peer is connected over this transport
 } carg;
+static const char *CTN[] = { "inproc", "ipc", "tcp", "ws" };
 
 static nng_socket S, PEER;
 static nng_ctx    CTX;
@@ -195,9 +197,23 @@ run_close(void *arg)
 	// for the reaper, which is what lets it overtake a releasing thread
 	int with_peer = (c->what != W_NEGO && c->what != W_CTXOP);
 	int rawfd     = -1;
-	char url[64];
-	snprintf(url, sizeof(url), "inproc://c10-%s", P[p].name);
-	VH_OK(nng_listen(S, url, &LS, 0));
+	char url[200], path[160] = "";
+	if (c->tran >= 2)
+		vs_tcp_grace_us = 1500;
+	if (c->tran == 0) {
+		snprintf(url, sizeof(url), "inproc://c10-%s", P[p].name);
+		VH_OK(nng_listen(S, url, &LS, 0));
+	} else if (c->tran == 1) {
+		snprintf(path, sizeof(path), "%s/c10-%d", vx_rundir(), (int) getpid());
+		snprintf(url, sizeof(url), "ipc://%s", path);
+		VH_OK(nng_listen(S, url, &LS, 0));
+	} else {
+		int port = 0;
+		VH_OK(nng_listen(S, c->tran == 2 ? "tcp://127.0.0.1:0" : "ws://127.0.0.1:0/c10", &LS, 0));
+		VH_OK(nng_listener_get_int(LS, NNG_OPT_BOUND_PORT, &port));
+		snprintf(url, sizeof(url), c->tran == 2 ? "tcp://127.0.0.1:%d" : "ws://127.0.0.1:%d/c10",
+		    port);
+	}
 	if (with_peer) {
 		VH_OK(P[p].peer(&PEER));
 		VH_OK(nng_dial(PEER, url, &DL, 0));
@@ -376,6 +392,8 @@ out:
 	if (with_peer)
 		nng_socket_close(PEER);
 	(void) nng_socket_close(S);
+	if (path[0])
+		unlink(path);
 	vh_fini();
 }
 
@@ -641,6 +659,42 @@ main(int argc, char **argv)
 			c.deadline_s         = T ? (w == W_CTXOP ? 240 : 150) : (w == W_CTXOP ? 30 : 6);
 			vx_explore(&c, NULL);
 		}
+	// the same closers with the peer connected over a stream transport (pipes with real
+	// descriptors, pollers, negotiation and transport-level queues in the teardown)
+	{
+		static carg TA[64];
+		int         nta = 0;
+		static const int TW[] = { W_SOCK_CLOSE, W_PIPE_CLOSE, W_EP_CLOSE, W_ISSUE };
+		static const int TP[] = { 0, 7, 2 }; // pair0, rep, push
+		for (int tr = 1; tr <= 3; tr++)
+			for (int wi = 0; wi < 4; wi++)
+				for (int pi = 0; pi < 3; pi++) {
+					if (!T && tr == 3)
+						continue; // quick: ipc and tcp
+					if (vx_time_left() < 15)
+						break;
+					carg *a  = &TA[nta++];
+					a->proto = TP[pi];
+					a->what  = TW[wi];
+					a->tran  = tr;
+					char name[64];
+					snprintf(name, sizeof(name), "%s-%s-%s", WN[a->what], P[a->proto].name,
+					    CTN[tr]);
+					vx_cfg c;
+					memset(&c, 0, sizeof(c));
+					c.prop               = "C10";
+					c.scenario           = strdup(name);
+					c.run                = run_close;
+					c.arg                = a;
+					c.budget[VB_PREEMPT] = T ? 2 : 1;
+					c.budget[VB_SWITCH]  = T ? 2 : 1;
+					c.budget[VB_WAKE1]   = 1;
+					c.budget[VB_ENV]     = -1;
+					c.total              = T ? 2 : 1;
+					c.deadline_s         = T ? 60 : 6;
+					vx_explore(&c, NULL);
+				}
+	}
 	for (int p = 0; p < NP; p++) {
 		if (vx_time_left() < 15)
 			break;
